@@ -19,6 +19,7 @@ use crate::maybe;
 
 // External library imports.
 use tephra::error::ParseBoundaryError;
+use tephra::error::RecoverError;
 use tephra::error::RepeatCountError;
 use tephra::Context;
 use tephra::Lexer;
@@ -214,11 +215,22 @@ pub fn list_bounded_default<'text: 'a, 'a, Sc, F, X: 'a, A>(
             }
 
             // Try to parse a value.
-            let (val, succ) = stabilize(recover_default(
+            let (val, succ) = match stabilize(recover_default(
                     up_to(&mut parser, &sep_or_abort_pred),
                     recover_pat.clone()))
-                (lexer.clone(), ctx.clone())?
-                .take_value();
+                (lexer.clone(), ctx.clone())
+            {
+                Ok(succ) => succ.take_value(),
+                // The item's error has been reported, but neither a separator
+                // nor an abort token follows it: the malformed item is the
+                // last one and extends to the end of the text.
+                Err(fail) if fail.as_error().is::<RecoverError>() => {
+                    let _ = lexer.advance_to(|_| false);
+                    vals.push(X::default());
+                    break;
+                },
+                Err(fail) => return Err(fail),
+            };
 
             lexer = succ.lexer;
             vals.push(val);
